@@ -53,6 +53,7 @@ class Session
     Recorder rec_;
     bool after_reset_{true};
     bool after_reseed_{false};
+    bool after_kill_{false};
     std::uint32_t prev_end_init_{0};
     std::uint32_t peak_init_{0};
     long total_steps_{0};
